@@ -120,7 +120,14 @@ PENDING = {
         "reports n > 1, RepartitionToFewer asserts npartitions_input > npartitions",
 }
 
-INDEX_KINDS = ("range", "sorted", "dups", "dups", "unsorted", "datetime", "strings", "float")
+INDEX_KINDS = ("range", "sorted", "dups", "dups", "unsorted", "datetime", "datetime_days", "strings", "float")
+DATETIME_KINDS = ("datetime", "datetime_days")
+INT_KINDS = ("range", "sorted", "dups", "unsorted")
+SIZES = ("100B", "200B", "300B", "500B", "700B", "1kB", "2kB", "3kB", "5kB", "1MB", 150, 300, 1500, 4000)
+# fixed frequencies (minute-resolution index spanning <= 160 min); "td:" = passed as pd.Timedelta
+FREQS_MINUTES = ("10min", "1h", "37min", "30min", "2h", "1D", "7min", "td:15min", "td:1h", "20min")
+# day-resolution index spanning months: period-end aliases are mapped to period starts, anchored and multiple offsets, weeks
+FREQS_DAYS = ("ME", "MS", "W", "QE", "2ME", "QE-FEB", "10D", "SME", "7D", "td:10D", "YE", "W-WED", "1D")
 E_SPARSE = [10, 20, 30, 40, 50, 60]
 E_DENSE = [0, 1, 2, 3, 4, 5]
 E_DUPS = [1, 1, 2, 3, 3, 3]
@@ -172,13 +179,25 @@ def cases(tier, seed):
         kind = rng.choice(INDEX_KINDS)
         c = {"fs": rng.randrange(2 ** 31), "nrows": nrows, "index": kind,
              "cols": rng.choice(("basic", "basic", "wide")), "series": rng.random() < 0.08}
-        tk = rng.choice(("npartitions",) * 5 + ("divisions",) * 6 + ("partition_size",) * 2 + ("from_pandas",) * 2
-                        + (("freq",) * 3 if kind == "datetime" else ()))
+        tk = rng.choice(("npartitions",) * 5 + ("divisions",) * 6 + ("partition_size",) * 3 + ("from_pandas",) * 2
+                        + ("pandas_divisions",) + (("freq",) * 4 if kind in DATETIME_KINDS else ()))
         if tk == "from_pandas":
             c["t"] = {"k": tk, "by": rng.choice(("npartitions", "chunksize")), "n": rng.randint(1, max(2, nrows + 3)),
-                      "sort": rng.random() < 0.7}
+                      "sort": rng.random() < 0.7, "sort_unsorted": rng.random() < 0.5}
             yield c
             continue
+        if tk == "pandas_divisions":
+            # dd.repartition(<pandas object>, divisions): only division vectors that cover the index
+            if kind == "unsorted":
+                c["index"] = kind = "sorted"
+            c["t"] = {"k": tk, "lo": rng.choice(("same", "same", "below")), "hi": rng.choice(("same", "same", "beyond")),
+                      "np": rng.randint(1, 8), "gap": rng.random() < 0.4, "dup_last": rng.random() < 0.1,
+                      "dseed": rng.randrange(2 ** 31), "as": rng.choice(("list", "tuple")), "force": False,
+                      "beyond_inner": rng.random() < 0.5}
+            yield c
+            continue
+        if tk == "partition_size" and rng.random() < 0.35:
+            c["nrows"] = nrows = rng.randint(100, 400)          # partitions of several kB: sizes of 1kB..5kB split them
         srck = rng.choice(("from_pandas", "from_pandas", "known", "known", "slices", "delayed"))
         if tk in ("divisions", "freq") and rng.random() < 0.85 and srck in ("slices", "delayed"):
             srck = rng.choice(("from_pandas", "known"))
@@ -188,7 +207,7 @@ def cases(tier, seed):
             c["src"] = {"how": rng.choice(("npartitions", "npartitions", "chunksize")), "n": rng.randint(1, 7),
                         "clear": tk not in ("divisions", "freq") and rng.random() < 0.12}
             if c["src"]["how"] == "chunksize":
-                c["src"]["n"] = rng.randint(1, max(1, nrows))
+                c["src"]["n"] = rng.randint(max(1, nrows // 12), max(1, nrows))
         elif srck == "known":
             c["src"] = {"how": "known", "np": rng.randint(1, 7), "sseed": rng.randrange(2 ** 31),
                         "gap": rng.random() < 0.5, "lo": rng.random() < 0.2, "hi": rng.random() < 0.2}
@@ -197,16 +216,30 @@ def cases(tier, seed):
         if tk == "npartitions":
             n = rng.choice((1, 2, 3, rng.randint(1, 9), nrows + rng.randint(1, 4), max(1, nrows - 1), max(1, nrows)))
             c["t"] = {"k": tk, "n": n}
+            if rng.random() < 0.22:           # npartitions given as a callable of the current partition count
+                c["t"]["fn"] = rng.choice(("x2", "x3", "half", "plus1", "plus2", "minus1", "const"))
+            if rng.random() < 0.12:           # force= is accepted next to npartitions (no effect on the rows)
+                c["t"]["force"] = True
         elif tk == "divisions":
             lo = rng.choice(("same",) * 6 + ("below", "below", "above"))
             hi = rng.choice(("same",) * 6 + ("beyond", "beyond", "inside"))
             force = rng.random() < (0.8 if (lo, hi) != ("same", "same") else 0.3)
             c["t"] = {"k": tk, "lo": lo, "hi": hi, "force": force, "np": rng.randint(1, 8),
-                      "gap": rng.random() < 0.4, "dup_last": rng.random() < 0.1, "dseed": rng.randrange(2 ** 31)}
+                      "gap": rng.random() < 0.4, "dup_last": rng.random() < 0.1, "dseed": rng.randrange(2 ** 31),
+                      "as": rng.choice(("list", "list", "tuple")), "via": rng.choice(("method",) * 3 + ("function",)),
+                      "floatdiv": rng.random() < 0.15, "beyond_inner": rng.random() < 0.5}
         elif tk == "partition_size":
-            c["t"] = {"k": tk, "size": rng.choice(("100B", "200B", "500B", "1kB", "2kB", "5kB", "1MB", 300, 1500))}
+            c["t"] = {"k": tk, "size": rng.choice(SIZES)}
+            if rng.random() < 0.1:
+                c["t"]["force"] = True
         else:
-            c["t"] = {"k": tk, "freq": rng.choice(("10min", "1h", "37min", "30min", "2h", "1D", "7min"))}
+            c["t"] = {"k": tk, "freq": rng.choice(FREQS_DAYS if kind == "datetime_days" else FREQS_MINUTES)}
+        # a filter under the repartition (partitions emptied behind known divisions) / a filter or projection above it
+        # (both are pushed through Repartition by the optimizer)
+        if rng.random() < 0.16:
+            c["pre"] = rng.choice(("a>=2", "e", "a<0"))
+        if rng.random() < 0.16:
+            c["post"] = rng.choice(("a>=2", "e", "cols", "col"))
         c["also_compute"] = rng.random() < 0.34
         yield c
 
@@ -259,6 +292,8 @@ def _between(a, b, kind):
     """a value strictly between a and b of the same kind, or None"""
     import pandas as pd
 
+    kind = "datetime" if kind in DATETIME_KINDS else kind
+
     if kind in ("range", "sorted", "dups", "unsorted"):
         m = (int(a) + int(b)) // 2
         return m if a < m < b else None
@@ -277,6 +312,9 @@ def _between(a, b, kind):
 
 def _outside(v, kind, up):
     import pandas as pd
+
+    if kind == "datetime_days":
+        return pd.Timestamp(v) + pd.Timedelta(days=40 if up else -20)
 
     if kind in ("range", "sorted", "dups", "unsorted"):
         return int(v) + (4 if up else -3)
@@ -345,10 +383,14 @@ def build(case):
                 src = dd.from_map(_ident, [pdf.iloc[x:y] for x, y in zip(b[:-1], b[1:])], meta=pdf.iloc[:0])
         return {"pdf": pdf, "src": src, "kind": kind}
     kind = case["index"]
-    pdf = F.rand_frame(case["fs"], nrows=case["nrows"], index=kind, cols=case["cols"])
+    pdf = F.rand_frame(case["fs"], nrows=case["nrows"], index="datetime" if kind == "datetime_days" else kind, cols=case["cols"])
+    if kind == "datetime_days" and len(pdf):
+        # the same sorted offsets, one minute -> six hours: the index spans up to ~40 days per 40 rows (months for 100+ rows)
+        base = pd.Timestamp("2021-03-01")
+        pdf.index = pd.DatetimeIndex(base + (pdf.index - base) * 360, name="ts")
     if case.get("series"):
         pdf = pdf["c"]
-    if case["t"]["k"] == "from_pandas":
+    if case["t"]["k"] in ("from_pandas", "pandas_divisions"):
         return {"pdf": pdf, "src": None, "kind": kind}
     s = case["src"]
     if s["how"] == "known":
@@ -361,12 +403,28 @@ def build(case):
     return {"pdf": pdf, "src": src, "kind": kind}
 
 
+def _select(obj, what):
+    """the same filter / projection program on a pandas or a dask object"""
+    series = obj.ndim == 1
+    if what == "a>=2":
+        return obj[obj > 0] if series else obj[obj["a"] >= 2]
+    if what == "e":
+        return obj[obj < 0.3] if series else obj[obj["e"]]
+    if what == "a<0":                                        # keeps no row at all: every partition becomes empty
+        return obj[obj > 1e9] if series else obj[obj["a"] < 0]
+    if what == "cols":
+        return obj if series else obj[["c", "a"]]
+    if what == "col":
+        return obj if series else obj["b"]
+    raise ValueError(what)
+
+
 def resolve_divisions(t, src, pdf, kind):
     """symbolic target -> (division list, lo, hi) or None when the source cannot carry it"""
     if "d" in t:
-        return list(t["d"]), "same", "same"
+        return list(t["d"]), t.get("lo", "same"), t.get("hi", "same")
     rng = random.Random(t["dseed"])
-    if src.known_divisions:
+    if src is not None and src.known_divisions:
         a0, a1 = _plain(src.divisions[0]), _plain(src.divisions[-1])
     elif len(pdf) and pdf.index.is_monotonic_increasing:
         a0, a1 = _plain(pdf.index[0]), _plain(pdf.index[-1])
@@ -389,6 +447,19 @@ def resolve_divisions(t, src, pdf, kind):
         d = sorted(d + [a0])
     if hi == "beyond" and rng.random() < 0.5 and a1 not in d:
         d = sorted(d + [a1])
+    if t.get("beyond_inner"):
+        # inner divisions that lie outside the data: an interval that is entirely below / beyond every row
+        if lo == "below":
+            m = _between(first, a0, kind)
+            if m is not None and m not in d:
+                d = sorted(d + [m])
+        if hi == "beyond":
+            m = _between(a1, last, kind)
+            if m is not None and m not in d:
+                d = sorted(d + [m])
+    if t.get("floatdiv") and kind in INT_KINDS:
+        # float-valued inner divisions on an integer index (x.5 lies strictly between two integers)
+        d = [d[0]] + [v + 0.5 if v + 0.5 < d[-1] else v for v in d[1:-1]] + [d[-1]]
     if t.get("dup_last") and len(d) >= 2 and d[-1] != d[-2]:
         d = d + [d[-1]]
     if len(d) == 1:
@@ -418,6 +489,166 @@ def _div_equal(got, want):
     return True
 
 
+NP_FUNCS = {"x2": lambda k: 2 * k, "x3": lambda k: 3 * k, "half": lambda k: max(1, k // 2), "plus1": lambda k: k + 1,
+            "plus2": lambda k: k + 2, "minus1": lambda k: max(1, k - 1)}
+
+
+def _np_callable(t):
+    if t["fn"] == "const":
+        n = t["n"]
+        return lambda k: n
+    return NP_FUNCS[t["fn"]]
+
+
+def _freq_arg(f):
+    import pandas as pd
+
+    return pd.Timedelta(f[3:]) if isinstance(f, str) and f.startswith("td:") else f
+
+
+class Target:
+    """one request: ``mk()`` builds the lazy result; what may be demanded of it"""
+
+    def __init__(self, **kw):
+        self.may_raise = False
+        self.dwant = None
+        self.n = None           # requested partition count (npartitions targets)
+        self.reject = None
+        self.ordered = True
+        self.counts = []
+        self.__dict__.update(kw)
+
+
+def make_target(t, src, pdf, kind):
+    """target description -> Target (never evaluates anything but the cheap attributes of ``src``)"""
+    from vf.gen import frames as F
+
+    dd = F.setup()
+    tk = t["k"]
+    if tk == "from_pandas":
+        mono = bool(pdf.index.is_monotonic_increasing)
+        sort = bool(t["sort"]) and (mono or bool(t.get("sort_unsorted")))
+        kw = {t["by"]: t["n"]}
+        T = Target(feat="from_pandas:%s&sort=%s&%s-index" % (t["by"], sort, "monotonic" if mono else "unsorted"),
+                   mk=lambda: dd.from_pandas(pdf, sort=sort, **kw), op="from_pandas", ordered=mono or not sort)
+        if sort and not mono:
+            T.counts.append("from_pandas_sort_unsorted")
+        return T
+    if tk == "pandas_divisions":
+        rd = resolve_divisions(t, None, pdf, kind)
+        if rd is None:
+            return Target(reject="no division vector can be drawn for an unsorted/empty frame")
+        d, lo, hi = rd
+        arg = tuple(d) if t.get("as") == "tuple" else list(d)
+        dup_last = len(d) > 2 and d[-1] == d[-2]
+        return Target(feat="repartition:pandas-object:lo-%s&hi-%s%s" % (lo, hi, "&dup-last" if dup_last else ""), dwant=d,
+                      mk=lambda: dd.repartition(pdf, arg), op="repartition-pandas-object", counts=["pandas_object_divisions"])
+    known = bool(src.known_divisions)
+    srcnp = src.npartitions
+    if tk == "npartitions":
+        if t.get("fn"):
+            f = _np_callable(t)
+            n = f(srcnp)
+            arg = f
+        else:
+            n = arg = t["n"]
+        rel = "more" if n > srcnp else "fewer" if n < srcnp else "same"
+        kw = {"force": True} if t.get("force") else {}
+        T = Target(feat="repartition:npartitions:%s&%s-divisions&%s-index" % (rel, "known" if known else "unknown", _idxclass(src)),
+                   n=n, mk=lambda: src.repartition(npartitions=arg, **kw), op="repartition", rel=rel)
+        T.counts.append("npartitions_" + rel)
+        if t.get("fn"):
+            T.counts.append("npartitions_callable")
+        if kw:
+            T.counts.append("force_with_npartitions_or_size")
+        return T
+    if tk == "divisions":
+        rd = resolve_divisions(t, src, pdf, kind)
+        if rd is None:
+            return Target(reject="no division vector can be drawn for an unsorted/empty source")
+        d, lo, hi = rd
+        force = bool(t["force"])
+        dup_last = len(d) > 2 and d[-1] == d[-2]
+        feat = "repartition:divisions:%s&lo-%s&hi-%s%s" % ("force" if force else "noforce", lo, hi, "&dup-last" if dup_last else "")
+        may_raise = False
+        if not known:
+            may_raise = True
+            feat = "repartition:divisions:unknown-source-divisions"
+        elif not force and (lo, hi) != ("same", "same"):
+            may_raise = True
+        elif force and (lo == "above" or hi == "inside"):
+            may_raise = True
+        arg = tuple(d) if t.get("as") == "tuple" else list(d)
+        if t.get("via") == "function":
+            mk = lambda: dd.repartition(src, arg, force=force)  # noqa: E731
+        else:
+            mk = lambda: src.repartition(divisions=arg, force=force)  # noqa: E731
+        T = Target(feat=feat, dwant=d, may_raise=may_raise, mk=mk, op="repartition", lo=lo, hi=hi, force=force)
+        T.counts.append("divisions_force" if force else "divisions_noforce")
+        if (lo, hi) != ("same", "same"):
+            T.counts.append("divisions_outer_changed")
+        if t.get("as") == "tuple":
+            T.counts.append("divisions_as_tuple")
+        if t.get("via") == "function":
+            T.counts.append("divisions_via_function")
+        if any(isinstance(v, float) for v in d[1:-1]) and kind in INT_KINDS:
+            T.counts.append("divisions_float_on_int_index")
+        return T
+    if tk == "partition_size":
+        kw = {"force": True} if t.get("force") else {}
+        T = Target(feat="repartition:partition_size:%s-divisions" % ("known" if known else "unknown"),
+                   mk=lambda: src.repartition(partition_size=t["size"], **kw), op="repartition")
+        if kw:
+            T.counts.append("force_with_npartitions_or_size")
+        return T
+    if tk == "freq":
+        if not known or kind not in DATETIME_KINDS:
+            return Target(reject="freq needs a datetime index with known divisions")
+        f = _freq_arg(t["freq"])
+        T = Target(feat="repartition:freq", mk=lambda: src.repartition(freq=f), op="repartition")
+        if not isinstance(f, str):
+            T.counts.append("freq_timedelta")
+        elif kind == "datetime_days" and not f[-1] in "D":
+            T.counts.append("freq_calendar_offset")
+        return T
+    raise ValueError(tk)
+
+
+def sibling_target(case, t, T, src, pdf, kind):
+    """-> (param, description of the same request with ONE parameter changed) or None"""
+    from ..mon import siblings as S
+
+    srng = S.rng_for(case)
+    tk = t["k"]
+    if tk == "npartitions":
+        pool = [v for v in (1, 2, 3, 4, 5, 7, 9, T.n + 1, T.n - 1, 2 * T.n) if v >= 1 and v != T.n]
+        return "npartitions", {"k": tk, "n": srng.choice(pool)}
+    if tk in ("divisions", "pandas_divisions"):
+        d = list(T.dwant)
+        if tk == "divisions" and srng.random() < 0.2 and (T.lo, T.hi) == ("same", "same"):
+            return "force", dict(t, d=d, force=not t["force"])
+        inner = list(range(1, len(d) - 1))
+        cand = [v for v in _pool(pdf, kind, srng, True) if d[0] < v < d[-1] and v not in d]
+        if inner and (not cand or srng.random() < 0.5):
+            i = srng.choice(inner)
+            d2 = d[:i] + d[i + 1:]
+        elif cand:
+            d2 = sorted(d[:-1] + [srng.choice(cand)]) + [d[-1]]
+        else:
+            return None
+        return "divisions", dict(t, d=d2, lo=getattr(T, "lo", "same"), hi=getattr(T, "hi", "same"))
+    if tk == "partition_size":
+        return "partition_size", dict(t, size=srng.choice([z for z in SIZES if z != t["size"]]))
+    if tk == "freq":
+        fam = FREQS_DAYS if kind == "datetime_days" else FREQS_MINUTES
+        return "freq", dict(t, freq=srng.choice([f for f in fam if f != t["freq"]]))
+    if tk == "from_pandas":
+        if srng.random() < 0.25:
+            return "sort", dict(t, sort=not t["sort"])
+        return t["by"], dict(t, n=srng.choice([v for v in (1, 2, 3, 4, 6, t["n"] + 1, max(1, t["n"] - 1)) if v != t["n"]]))
+    return None
+
+
 # --------------------------------------------------------------------------- run
 def run_case(case, ctx):
     with warnings.catch_warnings():
@@ -425,13 +656,42 @@ def run_case(case, ctx):
         _run(case, ctx)
 
 
+def _parts(coll):
+    import dask
+
+    return list(dask.compute(*coll.to_delayed(), scheduler="sync"))
+
+
+def _parts_many(colls):
+    import dask
+
+    return [list(v) for v in dask.compute(*[list(c.to_delayed()) for c in colls], scheduler="sync")]
+
+
+def _whole(coll):
+    return [coll.compute(scheduler="sync")]
+
+
+def _whole_many(colls):
+    import dask
+
+    return [[v] for v in dask.compute(*colls, scheduler="sync")]
+
+
+def _same_parts(x, y):
+    from vf.gen import frames as F
+
+    return len(x) == len(y) and all(F.compare(p, q, ordered=True) is None for p, q in zip(x, y))
+
+
 def _run(case, ctx):
     import dask
     import pandas as pd
 
     from vf.gen import frames as F
+    from ..mon import siblings as S
 
-    dd = F.setup()
+    F.setup()
     try:
         b = build(case)
     except NotImplementedError as e:
@@ -449,67 +709,44 @@ def _run(case, ctx):
     t = case["t"]
     tk = t["k"]
     ctx.op("target:" + tk)
-    may_raise = False
-    dwant = None
-    # ---- build the target ---------------------------------------------------------------------------------
-    if tk == "from_pandas":
-        mono = bool(pdf.index.is_monotonic_increasing)
-        sort = bool(t["sort"]) and mono
-        feat = "from_pandas:%s&sort=%s&%s-index" % (t["by"], sort, "monotonic" if mono else "unsorted")
-        mk = lambda: dd.from_pandas(pdf, sort=sort, **{t["by"]: t["n"]})  # noqa: E731
+    ctx.sig = case
+    pre, post = case.get("pre"), case.get("post")
+    if src is not None and pre:
+        # the source is a filtered frame: same divisions, partitions emptied / thinned behind them
+        src = _select(src, pre)
+        pdf = _select(pdf, pre)
+        ctx.count("source_after_filter")
+    T = make_target(t, src, pdf, kind)
+    if T.reject:
+        ctx.reject(T.reject)
+        return
+    feat, dwant, may_raise = T.feat, T.dwant, T.may_raise
+    for name in T.counts:
+        ctx.count(name)
+    if src is None:
         srcnp = 1
     else:
         srcnp = src.npartitions
-        known = bool(src.known_divisions)
-        ctx.count("source_known_divisions" if known else "source_unknown_divisions")
-        if tk == "npartitions":
-            n = t["n"]
-            rel = "more" if n > srcnp else "fewer" if n < srcnp else "same"
-            feat = "repartition:npartitions:%s&%s-divisions&%s-index" % (rel, "known" if known else "unknown", _idxclass(src))
-            ctx.count("npartitions_" + rel)
-            if n > len(pdf):
-                ctx.count("npartitions_above_row_count")
-            mk = lambda: src.repartition(npartitions=n)  # noqa: E731
-        elif tk == "divisions":
-            rd = resolve_divisions(t, src, pdf, kind)
-            if rd is None:
-                ctx.reject("no division vector can be drawn for an unsorted/empty source")
-                return
-            dwant, lo, hi = rd
-            force = bool(t["force"])
-            dup_last = len(dwant) > 2 and dwant[-1] == dwant[-2]
-            feat = "repartition:divisions:%s&lo-%s&hi-%s%s" % ("force" if force else "noforce", lo, hi, "&dup-last" if dup_last else "")
-            if not known:
-                may_raise = True
-                feat = "repartition:divisions:unknown-source-divisions"
-            elif not force and (lo, hi) != ("same", "same"):
-                may_raise = True
-            elif force and (lo == "above" or hi == "inside"):
-                may_raise = True
-            ctx.count("divisions_force" if force else "divisions_noforce")
-            if (lo, hi) != ("same", "same"):
-                ctx.count("divisions_outer_changed")
-            mk = lambda: src.repartition(divisions=list(dwant), force=force)  # noqa: E731
-        elif tk == "partition_size":
-            feat = "repartition:partition_size:%s-divisions" % ("known" if known else "unknown")
-            mk = lambda: src.repartition(partition_size=t["size"])  # noqa: E731
-        elif tk == "freq":
-            feat = "repartition:freq"
-            if not known or kind != "datetime":
-                ctx.reject("freq needs a datetime index with known divisions")
-                return
-            mk = lambda: src.repartition(freq=t["freq"])  # noqa: E731
-        else:
-            raise ValueError(tk)
+        ctx.count("source_known_divisions" if src.known_divisions else "source_unknown_divisions")
+        if tk == "npartitions" and T.n > len(pdf):
+            ctx.count("npartitions_above_row_count")
         if "space" not in case and any(len(p) == 0 for p in _src_lengths(src)):
             ctx.count("source_with_empty_partitions")
-    ctx.sig = case
+    expected = pdf
+    if post:
+        expected = _select(pdf, post)
+    desc = _describe(case, dwant, src)
+
+    def final(T_):
+        r_ = T_.mk()
+        return _select(r_, post) if post else r_
+
     # ---- run ---------------------------------------------------------------------------------------------
     try:
-        r = mk()
+        r = final(T)
         rnp = r.npartitions
         rdiv = r.divisions
-        parts = list(dask.compute(*r.to_delayed(), scheduler="sync"))
+        parts = _parts(r)
         whole = r.compute(scheduler="sync") if case.get("also_compute") else None
     except NotImplementedError as e:
         ctx.unsupported("%s: %s" % (feat, e))
@@ -518,44 +755,49 @@ def _run(case, ctx):
         if may_raise:
             ctx.count("expected_error")
             ctx.sample = {"expected_error": str(e)[:120], "feat": feat}
+            _after_error(ctx, case, src, pdf, feat, desc)
             return
-        ctx.exception(e, prefix=feat, case=_describe(case, dwant, src))
+        ctx.exception(e, prefix=feat, case=desc)
         return
     except Exception as e:  # noqa: BLE001
-        ctx.exception(e, prefix=feat, case=_describe(case, dwant, src))
+        ctx.exception(e, prefix=feat, case=desc)
         return
     if may_raise:
         ctx.count("may_raise_but_returned")
+    if post:
+        ctx.count("post_filter" if post in ("a>=2", "e") else "post_projection")
     ctx.nontrivial = len(pdf) >= 2 and (srcnp >= 2 or len(parts) >= 2)
     ctx.count("results_checked")
     ctx.count("partitions_observed", len(parts))
     ctx.distinct("target_feature", feat)
-    desc = _describe(case, dwant, src)
     # ---- rows and order ----------------------------------------------------------------------------------------
-    got = pd.concat(parts) if parts else pdf.iloc[:0]
-    m = F.compare(got, pdf, ordered=True)
+    got = pd.concat(parts) if parts else expected.iloc[:0]
+    m = F.compare(got, expected, ordered=T.ordered)
     if m is not None:
         ctx.violation("%s:rows-%s" % (feat, m[0]), "concat(partitions) differs from the pandas frame: %s" % m[1],
                       case=desc, partition_lengths=[len(p) for p in parts])
+    elif not T.ordered and not got.index.is_monotonic_increasing:
+        ctx.violation(feat + ":index-not-sorted", "from_pandas(sort=True) is documented to sort by the index; the partitions "
+                      "concatenate to a non-monotonic index", case=desc)
     if whole is not None:
         ctx.count("compute_views")
-        m2 = F.compare(whole, pdf, ordered=True)
+        m2 = F.compare(whole, expected, ordered=T.ordered)
         if m2 is not None and m is None:
             ctx.violation("%s:compute-rows-%s" % (feat, m2[0]), "compute() differs from the pandas frame: %s" % m2[1], case=desc)
     # ---- partition count -----------------------------------------------------------------------------------------
     count_fired = False
     if tk == "npartitions":
         ctx.count("npartitions_checked")
-        if len(parts) != t["n"]:
+        if len(parts) != T.n:
             count_fired = True
             ctx.violation(feat + ":partition-count", "repartition(npartitions=%d) gave %d partitions (reports npartitions=%d, divisions %r)"
-                          % (t["n"], len(parts), rnp, _short_div(rdiv)), case=desc)
-        elif rnp != t["n"]:
+                          % (T.n, len(parts), rnp, _short_div(rdiv)), case=desc)
+        elif rnp != T.n:
             count_fired = True
             ctx.violation(feat + ":npartitions-reported", "repartition(npartitions=%d) reports npartitions=%d (graph has %d)"
-                          % (t["n"], rnp, len(parts)), case=desc)
+                          % (T.n, rnp, len(parts)), case=desc)
     # ---- requested divisions ---------------------------------------------------------------------------------------
-    if tk == "divisions":
+    if tk in ("divisions", "pandas_divisions"):
         ctx.count("divisions_checked")
         if not _div_equal(tuple(rdiv), tuple(dwant)):
             ctx.violation(feat + ":divisions-reported", "requested divisions %r, reported %r" % (_short_div(dwant), _short_div(rdiv)), case=desc)
@@ -576,7 +818,63 @@ def _run(case, ctx):
                 dv = ("npartitions-vs-divisions", "graph has %d partitions, divisions %r" % (len(parts), _short_div(rdiv)))
             if dv is not None and not (count_fired and dv[0] == "npartitions-vs-divisions"):
                 ctx.violation("%s:divisions-monitor:%s" % (feat, dv[0]), dv[1], case=desc)
+    if tk == "freq" and len(rdiv) > 2 and rdiv[-1] == rdiv[-2]:
+        ctx.count("freq_last_division_on_grid")
     ctx.sample = {"feat": feat, "src_npartitions": srcnp, "out_partitions": [len(p) for p in parts][:12]}
+    # ---- sibling facet: the same request on the SAME source with one parameter changed, in one graph ------------------
+    if "space" in case:
+        return
+    sib = sibling_target(case, t, T, src, pdf, kind)
+    if sib is None:
+        return
+    param, t2 = sib
+    T2 = make_target(t2, src, pdf, kind)
+    if T2.reject or T2.may_raise:
+        return
+    mode = S.pick(case, 2, salt="c44mode")
+    together = True if tk == "partition_size" else S.want_together(case, fraction=0.35, salt="c44")
+    if tk == "partition_size":
+        ctx.count("sibling_partition_size")
+    if mode == 0:
+        S.check(ctx, T.op, param, r, lambda: final(T2), va=parts, together=together, compute=_parts,
+                compute_many=_parts_many, same=_same_parts, describe={"changed": param, "to": _jsonable(t2.get(_PARAM_FIELD.get(param, param)))})
+    else:
+        S.check(ctx, T.op, param, r, lambda: final(T2), va=[whole] if whole is not None else None, together=together,
+                compute=_whole, compute_many=_whole_many, same=_same_parts,
+                describe={"changed": param, "to": _jsonable(t2.get(_PARAM_FIELD.get(param, param)))})
+
+
+_PARAM_FIELD = {"npartitions": "n", "chunksize": "n", "divisions": "d", "partition_size": "size"}
+
+
+def _jsonable(v):
+    if isinstance(v, (list, tuple)):
+        return [str(x) for x in _short_div(v)]
+    return v if isinstance(v, (int, float, str, bool, type(None))) else str(v)
+
+
+def _after_error(ctx, case, src, pdf, feat, desc):
+    """STATE: a refused request must leave the source usable -- a following repartition of the same frame is right"""
+    import pandas as pd
+
+    from vf.gen import frames as F
+    from ..mon import siblings as S
+
+    if src is None:
+        return
+    n = 1 + S.pick(case, 4, salt="after")
+    try:
+        parts = _parts(src.repartition(npartitions=n))
+    except Exception as e:  # noqa: BLE001
+        ctx.exception(e, prefix="repartition:npartitions-after-refused-divisions", case=desc)
+        return
+    ctx.count("after_error_followup")
+    got = pd.concat(parts) if parts else pdf.iloc[:0]
+    m = F.compare(got, pdf, ordered=True)
+    if m is not None:
+        ctx.violation("repartition:npartitions-after-refused-divisions:rows-%s" % m[0],
+                      "after a refused repartition(divisions=...) the same frame repartitioned to %d partitions differs "
+                      "from the pandas frame: %s" % (n, m[1]), case=desc)
 
 
 def _src_lengths(src):
